@@ -4,6 +4,7 @@
 -/
 import RoModel.Render
 import RoModel.Ops.Aggregate
+import RoModel.Ops.More
 namespace Ro.Driver
 open Ro
 
@@ -142,9 +143,47 @@ def runner {σ β : Type} [Render β] (m : Machine σ Int β) : Runner := fun mo
     | some k => runOpCut m sub raw k
   let rel := if m.subscribes && (!r.upOpen || !r.downOpen) then 1 else 0
   let steps := if m.subscribes then r.steps else []
-  s!"trace={renderTrace r.out} drops={renderDrops r.drops} steps={renderNats steps} subs={m.subs} rel={rel}"
+  s!"trace={renderTrace r.out} drops={renderDrops r.drops} steps={renderNats steps} subs={m.subs} rel={rel} alias=ok"
 
 def natOf (i : Int) : Nat := i.toNat
+
+/-! ### helpers of the operators of RoModel/Ops/More.lean -/
+
+/-- the result of an uninterpreted float function, printed symbolically (`round(3)`, `avg(7:2)`);
+    the harness prints the same token when the float it received equals Go's own `math` function
+    applied to the same item -/
+structure Sym where
+  s : String
+
+instance : Render Sym := ⟨fun x => x.s⟩
+
+def symApp (fn : String) (v : Int) : Sym := ⟨s!"{fn}({v})"⟩
+def symNaN : Sym := ⟨"?NaN"⟩
+def symDiv (sum : Int) (n : Nat) : Sym := if n == 0 then symNaN else ⟨s!"avg({sum}:{n})"⟩
+
+/-- the marker by which the harness makes "the source was subscribed with the key" visible on every
+    notification (go/harness/more.go `viewSource`) -/
+def upMark : Nat := 99
+
+/-- `Cast`: the harness renders the cast error by its message -/
+def castErrText : String := "other(ro.Cast:_unable_to_cast_<nil>_to_int)"
+
+def withCastText (r : Runner) : Runner := fun mode sub raw cut =>
+  (r mode sub raw cut).replace (renderErr (.sentinel 7)) castErrText
+
+def ctxMapCb (var : String) (cb : Cb) : Option (Ctx → Nat → Ctx) :=
+  if cb.name != "ctag" then none
+  else match cb.tag with
+    | none => none
+    | some t => some (if hasI var then (fun c i => c.tag (t + i)) else (fun c _ => c.tag t))
+
+/-- the `Tap*` / `Do*` family (by Go function name): which callbacks are the user's -/
+def tapSel : String → Option (Notif Int → Bool)
+  | "Tap" | "TapWithContext" | "Do" | "DoWithContext" => some selAll
+  | "TapOnNext" | "TapOnNextWithContext" | "DoOnNext" | "DoOnNextWithContext" => some selNext
+  | "TapOnError" | "TapOnErrorWithContext" | "DoOnError" | "DoOnErrorWithContext" => some selError
+  | "TapOnComplete" | "TapOnCompleteWithContext" | "DoOnComplete" | "DoOnCompleteWithContext" => some selComplete
+  | _ => none
 
 /-- operator name × parameters × variant × callbacks → runner -/
 def lookup (op : String) (p : List Int) (var : String) (cbs : List Cb) : Option Runner :=
@@ -202,6 +241,37 @@ def lookup (op : String) (p : List Int) (var : String) (cbs : List Cb) : Option 
   | "Max", [], [] => some (runner maxM)
   | "Clamp", [lo, hi], [] => some (runner (clampM lo hi))
   | "Reduce", [seed], [cb] => (mkRed var cb).map (fun f => runner (reduceM f seed))
+  -- RoModel/Ops/More.lean: operator_context.go
+  | "ContextWithValue", [m], [] =>
+      -- harness: probe |> viewSource |> ContextWithValue(key, m) |> keyToMark; `viewSource` re-roots the
+      -- contexts (markers only) and adds `upMark` when the context it was subscribed with carries the key
+      some (if (ctxWithValueUp (natOf m) Ctx.bg).marks.contains (natOf m)
+        then runner ((ctxWithValueM (α := Int) upMark).seq (ctxWithValueM (natOf m)))
+        else runner (ctxWithValueM (α := Int) (natOf m)))
+  | "ContextWithTimeout", [], [] => some (runner (contextMapM (α := Int) (fun c _ => c)))
+  | "ContextWithDeadline", [], [] => some (runner (contextMapM (α := Int) (fun c _ => c)))
+  | "ContextReset", [m], [] => some (runner (contextResetM (α := Int) { marks := [natOf m] }))
+  | "ContextReset", [], [] => some (runner (contextResetM (α := Int) Ctx.bg))
+  | "ContextMap", [], [cb] => (ctxMapCb var cb).map (fun f => runner (contextMapM (α := Int) f))
+  -- operator_transformations.go
+  | "Cast", [k], [] =>
+      -- harness: probe |> Map(v ↦ any: a string when v = k, the int otherwise) |> Cast[any, int]
+      some (withCastText (runner ((mapM (fun c (v : Int) _ => (c, if v == k then none else some v))).seq (castM id (.sentinel 7)))))
+  -- operator_utility.go
+  | "TapOnSubscribeWithContext", [], [] => some (runner (idM (α := Int)))
+  | "DoOnSubscribe", [], [] => some (runner (idM (α := Int)))
+  | "DoOnFinalize", [], [] => some (runner (idM (α := Int)))
+  | "DelayEach", [], [] => some (runner (idM (α := Int)))
+  | "TimeInterval", [], [] => some (runner ((timedM (α := Int) (fun _ => ())).mapOut Prod.fst))
+  | "Timestamp", [], [] => some (runner ((timedM (α := Int) (fun _ => ())).mapOut Prod.fst))
+  -- operator_math.go (float functions uninterpreted)
+  | "Average", [], [] => some (runner (averageM symDiv symNaN))
+  | "Round", [], [] => some (runner (mapM (fun c (v : Int) _ => (c, symApp "round" v))))
+  | "Abs", [], [] => some (runner (mapM (fun c (v : Int) _ => (c, symApp "abs" v))))
+  | "Floor", [], [] => some (runner (mapM (fun c (v : Int) _ => (c, symApp "floor" v))))
+  | "Ceil", [], [] => some (runner (mapM (fun c (v : Int) _ => (c, symApp "ceil" v))))
+  | "Trunc", [], [] => some (runner (mapM (fun c (v : Int) _ => (c, symApp "trunc" v))))
+  | name, [], [] => (tapSel name).map (fun sel => runner (tapM sel))
   | _, _, _ => none
 
 end Ro.Driver
